@@ -122,7 +122,21 @@ def case_strategy(draw, tier="quick"):
                               for n in names}})
     inputs = draw(st.lists(st.tuples(st.integers(0, 1 if two else 0), st.integers(0, 9)),
                            min_size=2, max_size=12))
-    return {"two": two, "ops": ops, "inputs": [list(i) for i in inputs]}
+    # what the elements are when they reach scatter(): ints, or small containers built from the
+    # int (tuple / list / frozenset / range of v mod 4 items, so also empty ones), summed by a
+    # first map(tsum)
+    shape = "int"
+    if not two and draw(st.integers(0, 3)) == 0:
+        shape = draw(st.sampled_from(["tuple", "list", "frozenset", "range"]))
+        ops = [["map", "tsum"]] + ops
+    return {"two": two, "ops": ops, "inputs": [list(i) for i in inputs], "shape": shape}
+
+
+def shaped(shape, v):
+    if shape == "int":
+        return v
+    items = range(v % 4)
+    return {"tuple": tuple, "list": list, "frozenset": frozenset, "range": lambda r: r}[shape](items)
 
 
 def build(case, dask):
@@ -179,7 +193,7 @@ def run(case, dask):
         cb = (lambda i=i: timeline.append(("cb", i)))
         rc = RefCounter(cb=cb, loop=tgt.loop if tgt.loop is not None else _ImmediateLoop())
         rcs.append(rc)
-        tgt.emit(v, metadata=[{"ref": rc}])
+        tgt.emit(shaped(case.get("shape", "int"), v), metadata=[{"ref": rc}])
     run.timeline = timeline
     return out, rcs, sink
 
@@ -344,7 +358,8 @@ def execute(case):
     nt = len(case["inputs"]) >= 3 and (n_tasks >= 2 or bool(kinds & {"accumulate", "zip2", "partition",
                                                                     "sliding_window", "buffer"}))
     return Result(v, nontrivial=nt, classes=["op:" + k for k in kinds] +
-                  (["two-entries"] if case["two"] else []))
+                  (["two-entries"] if case["two"] else []) +
+                  ["elements:" + case.get("shape", "int")])
 
 
 PARTS = [Part("segments", case_strategy, execute, quick=120, thorough=500, shards=8,
